@@ -247,10 +247,15 @@ class AbsSpectrumCalculator(EnergyUnitsManaged):
             
         # Fourier transform the result
         
-        ft = dd*numpy.fft.hfft(at)*ta.step
+        # the transform has to have as many points as the frequency axis
+        # (twice the length of the time axis)
+        ft = dd*numpy.fft.hfft(at, n=2*ta.length)*ta.step
         ft = numpy.fft.fftshift(ft)
         # invert the order because hfft is a transform with -i
         ft = numpy.flipud(ft)   
+        # the inversion leaves zero frequency one point below the zero
+        # of the frequency axis
+        ft = numpy.roll(ft, 1)
         # cut the center of the spectrum
         Nt = ta.length #len(ta.data)        
         return ft[Nt//2:Nt+Nt//2]
@@ -382,10 +387,15 @@ class AbsSpectrumCalculator(EnergyUnitsManaged):
         #
         # Fourier transform of the time-dependent result
         #
-        ft = numpy.fft.hfft(at)*time.step
+        # the transform has to have as many points as the frequency axis
+        # (twice the length of the time axis)
+        ft = numpy.fft.hfft(at, n=2*time.length)*time.step
         ft = numpy.fft.fftshift(ft)
         # invert the order because hfft is a transform with -i
         ft = numpy.flipud(ft)   
+        # the inversion leaves zero frequency one point below the zero
+        # of the frequency axis
+        ft = numpy.roll(ft, 1)
         # cut the center of the spectrum
         Nt = time.length #len(ta.data)        
         data = ft[Nt//2:Nt+Nt//2]
